@@ -117,11 +117,13 @@ func (m *CPU) Run(app risc.Application) (int, error) {
 			if resp.err != nil {
 				return 0, resp.err
 			}
-			if resp.flush {
+			if resp.flush && (!flush || resp.sequenceID < sequenceID) {
+				// Several units may ask for a flush in the same cycle: the oldest
+				// instruction decides, the younger ones are on its wrong path
 				sequenceID = resp.sequenceID
+				pc = resp.pc
 			}
 			flush = flush || resp.flush
-			pc = max(pc, resp.pc)
 			ret = ret || resp.isReturn
 		}
 
